@@ -360,6 +360,27 @@ def run_cases(exe, cases, workdir, tag, env=None, shards=NCPU, per_case_timeout=
                 obs[idx[o["i"]]] = o
         os.remove(cp)
         os.remove(op)
+    # a timeout is only believed if it repeats when the case runs alone, unloaded, with a four times longer watchdog
+    slow = [i for i, o in enumerate(obs) if o is not None and o.get("outcome") == "timeout"][:24]
+    if slow and not (env or {}).get("VH_WATCHDOG"):
+        e2 = dict(e)
+        e2["VH_WATCHDOG"] = str(int(per_case_timeout * 4))
+        for i in slow:
+            cp = os.path.join(workdir, "%s.confirm.%d.ndjson" % (tag, i))
+            op = os.path.join(workdir, "%s.confirm_obs.%d.ndjson" % (tag, i))
+            with open(cp, "w") as f:
+                f.write(json.dumps(cases[i], separators=(",", ":")) + "\n")
+            _run_shard(exe, cp, op, 1, e2, per_case_timeout * 4)
+            try:
+                o2 = json.loads(open(op).readline())
+                if o2.get("outcome") != "timeout":
+                    log("case %d timed out under load but finished when run alone: not a hang" % i)
+                obs[i] = o2
+            except Exception:
+                pass
+            for f_ in (cp, op):
+                if os.path.exists(f_):
+                    os.remove(f_)
     missing = [i for i, o in enumerate(obs) if o is None]
     if missing:
         raise Infra("driver %s produced no observation for %d cases (first %d)" % (exe, len(missing), missing[0]))
